@@ -124,7 +124,7 @@ theorem reachable_findRegionByKey {c : Cache} (h : Reachable c) (pd : PD) (key :
     · exact reachable_loadAndInsert h pd key isEnd
     · split
       · split
-        · exact h
+        · exact Reachable.update _ _ (fun _ => rfl) h
         · exact Reachable.insert _ (Reachable.update _ _ (fun _ => rfl) h)
       · exact h
   · exact reachable_loadAndInsert h pd key isEnd
@@ -193,7 +193,7 @@ theorem reachable_locateRegionByID {c : Cache} (h : Reachable c) (pd : PD) (id :
   split
   · split
     · split
-      · exact h
+      · exact Reachable.update _ _ (fun _ => rfl) h
       · exact Reachable.insert _ (Reachable.update _ _ (fun _ => rfl) h)
     · exact h
   · split
@@ -478,7 +478,7 @@ def applyOp (c : Cache) : Op → Cache
   | .group pd keys => (groupKeysByRegion c pd keys).1
   | .listIDs fuel pd s e => (listRegionIDs fuel c pd s e []).1
   | .invalidate v => c.invalidate v
-  | .needReload v => c.update v (fun e => { e with reload := true })
+  | .needReload v => c.update v (fun e => { e with reload := true, delayedOnly := false })
   | .updateLeader v store => updateLeader c v store
   | .epochNotMatch v store cur => (onRegionEpochNotMatch c v store cur).1
   | .gc => c.gc
